@@ -76,11 +76,27 @@ struct Impl {
       top.setBox(P);
     }
     if (prior == 3) top.setBox(Eigen::Matrix3d::Zero());
+    if (prior == 4) {
+      // the SAME matrix was set before with another, explicitly chosen type
+      BC::eBoxtype other = (t == BC::typeOrthorhombic || t == BC::typeAuto) ? BC::typeTriclinic : BC::typeOrthorhombic;
+      bool diagonal = B.m[0][1] == 0 && B.m[0][2] == 0 && B.m[1][0] == 0 && B.m[1][2] == 0 && B.m[2][0] == 0 && B.m[2][1] == 0;
+      if (other == BC::typeOrthorhombic && !diagonal) other = BC::typeOpen;  // an orthorhombic object for a tilted matrix is outside the domain
+      top.setBox(eig(B), other);
+    }
     if (route == 2 && t != BC::typeAuto) {
       std::unique_ptr<BC> b;
       if (t == BC::typeOrthorhombic) b = std::make_unique<csg::OrthorhombicBox>();
       if (t == BC::typeTriclinic) b = std::make_unique<csg::TriclinicBox>();
       if (t == BC::typeOpen) b = std::make_unique<csg::OpenBox>();
+      if (prior > 0) {
+        // history of a boundary object: it carried another box and answered a query before
+        b->setBox(Eigen::Vector3d(3.0, 4.0, 5.0).asDiagonal());
+        (void)b->BCShortestConnection(Eigen::Vector3d(0.1, 0.2, 0.3), Eigen::Vector3d(2.9, 3.9, 4.9));
+        if (prior == 2) {
+          std::unique_ptr<BC> used = b->Clone();  // a clone of a used object, given the new box
+          b = std::move(used);
+        }
+      }
       b->setBox(eig(B));
       direct = b->Clone();  // the clone must behave like the original
     } else {
@@ -279,7 +295,7 @@ static json gen_periodic(int kind) {
   c["box"] = gen_box(kind);
   c["type"] = gen_type(kind);
   c["route"] = ri(0, 2);
-  c["prior"] = rbool(30) ? ri(1, 3) : 0;
+  c["prior"] = rbool(35) ? ri(1, 4) : 0;
   int regime = pick<int>({0, 1, 1, 2, 2, 2});
   c["f1"] = gen_frac();
   c["n1"] = gen_shifts_regime(regime);
@@ -330,7 +346,7 @@ static json gen_open() {
   c["box"] = gen_box(k == 2 ? ri(1, 2) : 0);
   c["type"] = k == 0 ? "auto" : "open";
   c["route"] = ri(0, 2);
-  c["prior"] = rbool(30) ? ri(1, 3) : 0;
+  c["prior"] = rbool(35) ? ri(1, 4) : 0;
   auto coord = [] {
     int m = ri(0, 3);
     double s = rbool() ? 1.0 : -1.0;
@@ -384,7 +400,7 @@ static json gen_volume() {
   else
     c["type"] = gen_type(kind);
   c["route"] = ri(0, 2);
-  c["prior"] = rbool(30) ? ri(1, 3) : 0;
+  c["prior"] = rbool(35) ? ri(1, 4) : 0;
   return c;
 }
 
